@@ -504,6 +504,7 @@ def replay_c04(chk, rp):
 def run_c05(chk: Check) -> int:
     quick = chk.tier == "quick"
     run_models(chk, ["CleanDelivered", "BufBounded"])
+    chk.sensitivity("p1", "MC_ModeDReader", "CONSTANTS\n MaxSegs = 3\n GuardMax = 14\n Pinned = TRUE\n", "CleanDelivered", what="F5: pinned P1 buffer handling")
     s = chk.seed * 1000 + 5
     traces = pmap(_mk_clean, [(s + i, 5 if quick else 40, True) for i in range(16)])
     judge_and_harvest(chk, traces, ("C05",), "c05-traces")
